@@ -28,16 +28,28 @@ OPS = ["to_Matrix", "from_Matrix", "inverse", "product", "log", "Ad", "g_left_ja
 KINDS = ["sparse", "dense", "sym"]
 
 
+# preludes that are not (group, operation, input kind): building other objects from shared pieces, deriving the model / estimator functions
+EXTRA_STEPS = [("construct", "euler_groups_from_shared_sequence", "-"), ("construct", "euler_groups_fresh", "-"), ("construct", "semidirect_and_products", "-"),
+               ("derive", "rdd2", "-"), ("derive", "rdd2_loglinear", "-"), ("derive", "bezier", "-"), ("derive", "quadrotor", "-"), ("derive", "estimator", "-"),
+               ("derive", "mr_ref_traj", "-")]
+
+
 def menu(tier):
     """list of preludes; a prelude is a list of steps (group, op, kind)"""
     steps = [(g, o, k) for g in GROUPS for o in OPS for k in KINDS]
-    if tier == "thorough":
-        pre = [[s] for s in steps]
-        # depth 2 over the SO(3) quaternion / DCM steps with structurally sparse inputs (the ones that reach shared conversion code)
-        core_steps = [(g, o, "sparse") for g in ("SO3Quat", "SO3Dcm", "SO3Mrp") for o in OPS]
-        pre += [[a, b] for a in core_steps for b in core_steps if a != b]
-        return [[]] + pre
-    # quick: every (group, op) with the sparse kind, every (op, kind) on the quaternion group, dense/sym on a covering diagonal
+    if tier != "thorough":
+        return _menu_quick() + [[s] for s in EXTRA_STEPS]
+    return _menu_thorough(steps) + [[s] for s in EXTRA_STEPS] + [[a, b] for a in EXTRA_STEPS for b in EXTRA_STEPS if a != b]
+
+
+def _menu_thorough(steps):
+    pre = [[s] for s in steps]
+    core_steps = [(g, o, "sparse") for g in ("SO3Quat", "SO3Dcm", "SO3Mrp") for o in OPS]
+    pre += [[a, b] for a in core_steps for b in core_steps if a != b]
+    return [[]] + pre
+
+
+def _menu_quick():
     pre = [[(g, o, "sparse")] for g in GROUPS for o in OPS]
     pre += [[("SO3Quat", o, k)] for o in OPS for k in ("dense", "sym")]
     pre += [[(GROUPS[(i + j) % len(GROUPS)], o, KINDS[1 + (i + j) % 2])] for i, o in enumerate(OPS) for j in (1, 4)]
@@ -98,10 +110,68 @@ def _alg_elem(G, kind):
     return A.elem(ca.SX(A.n_param, 1))
 
 
+def do_extra(step):
+    import casadi as ca
+    lie = _lie()
+    what, name, _ = step
+    with contextlib.redirect_stdout(io.StringIO()):
+        try:
+            if what == "construct" and name.startswith("euler_groups"):
+                from cyecca.lie.group_so3 import Axis, EulerType, SO3EulerLieGroup
+                shared = lie.SO3EulerB321.sequence
+                for et in (EulerType.space_fixed, EulerType.body_fixed):
+                    seqs = [shared] if name.endswith("shared_sequence") else [[Axis.z, Axis.y, Axis.x], [Axis.x, Axis.y, Axis.z], [Axis.z, Axis.x, Axis.z]]
+                    for seq in seqs:
+                        Gv = SO3EulerLieGroup(euler_type=et, sequence=seq)
+                        Xv = Gv.elem(ca.DM([0.3, -0.4, 0.5]))
+                        Xv.to_Matrix()
+                        try:
+                            Xv.log()
+                            lie.SO3Quat.from_Euler(Xv)
+                        except Exception:
+                            pass
+            elif what == "construct":
+                from cyecca.lie.group_se3 import SE3LieGroup
+                from cyecca.lie.group_se23 import SE23LieGroup
+                base = lie.SE3Quat * lie.R3
+                aug = base * lie.SO2
+                aug2 = base * lie.SE2
+                for Gp in (lie.SO3Quat * lie.R3, lie.SE2 * lie.SE2, lie.SO3Mrp * lie.SO3Quat, base, aug, aug2, lie.R3 * (lie.SO3Quat * lie.R3), SE3LieGroup(SO3=lie.SO3Dcm),
+                           SE23LieGroup(SO3=lie.SO3EulerB321)):
+                    try:
+                        Xp = Gp.algebra.elem(ca.DM(np.linspace(-0.3, 0.4, Gp.algebra.n_param))).exp(Gp)
+                        (Xp * Xp).log()
+                        Xp.inverse().to_Matrix()
+                    except Exception:
+                        pass
+            elif what == "derive":
+                if name == "estimator":
+                    from cyecca.estimate.attitude import algorithms
+                    algorithms.eqs()
+                elif name == "quadrotor":
+                    from cyecca.models import quadrotor
+                    quadrotor.derive_model()
+                elif name == "mr_ref_traj":
+                    from cyecca.models import mr_ref_traj
+                    mr_ref_traj.derive_mr_ref_traj()
+                else:
+                    import importlib
+                    mod = importlib.import_module("cyecca.models." + name)
+                    for fn in sorted(n for n in dir(mod) if n.startswith("derive_")):
+                        try:
+                            getattr(mod, fn)()
+                        except Exception:
+                            pass
+        except Exception:
+            pass
+
+
 def do_step(step):
     import casadi as ca
     lie = _lie()
     g, op, kind = step
+    if g in ("construct", "derive"):
+        return do_extra(step)
     G = _group(g)
     with contextlib.redirect_stdout(io.StringIO()):
         try:
